@@ -188,11 +188,13 @@ class FunctionReport:
         self.vacuity = {}
         self.variants = 0
         self.paths = 0
+        self.lemmas_used: set = set()
 
     def to_json(self):
         return {"function": self.qualname, "info": self.info, "status": self.status, "reason": self.reason,
                 "results": [r.to_json() for r in self.results], "assumed_used": sorted(self.assumed_used),
-                "dropped": sorted(self.dropped), "vacuity": self.vacuity, "variants": self.variants, "paths": self.paths}
+                "dropped": sorted(self.dropped), "vacuity": self.vacuity, "variants": self.variants, "paths": self.paths,
+                "lemmas_used": sorted(self.lemmas_used)}
 
 
 def _enum_space(c):
@@ -268,13 +270,20 @@ def verify_function(qualname: str, timeout_ms=20000, cross_check=False, only=Non
                 if o.kind in ("return", "fall"):
                     any_return = True
                     covers.append((f"{qualname}/return.reachable{tag}#{pi}", list(o.st.pc)))
-                    est = State(dict(spec_env), o.st.pc, o.st.decisions)
+                    fenv = {k_: v_ for k_, v_ in o.st.env.items() if k_ not in spec_env}
+                    fenv.update(spec_env)  # parameters keep their entry value; final locals are visible too
+                    est = State(fenv, o.st.pc, o.st.decisions)
                     est.env["result"] = o.val if o.kind == "return" else None
                     est.env["__final__"] = dict(o.st.env)
                     for pk, pv in o.st.env.items():
                         if isinstance(pv, ObjUnderConstruction) and pk in est.env:
                             est.env[pk] = pv
-                    for ename, e in c.ensures.items():
+                    for lname, binding in c.uses:
+                        from contracts import lemmas as _lem
+                        fact = _lem.instantiate(it, est, lname, binding)
+                        o.st.pc.append(fact)
+                        rep.lemmas_used.add(lname)
+                    for ename, e in list(c.ensures.items()) + list(c.internal.items()):
                         try:
                             it._assuming.add(c.qualname)
                             g = it.ev_contract_expr(e, est)
